@@ -88,4 +88,7 @@ def run(prog, rep, tier):
     reads_mean = any(x == MU for x in walk(term)) or any(x == ("sub", calls[0].result, ("const", 1)) for x in walk(term))
     rep.check("NODEP.mse-mean", not reads_mean, fwhere(f2), "mse never reads self.mean nor the intercept", "mse depends on the means")
     rep.assume("self.covariance is symmetric; equality is over the reals")
+    # no branch / index of the computation may depend on the *values* of the moments
+    pattern_method(prog, rep, ND + "regress", ["mean", "covariance"], rule="NODECISION")
+    pattern_method(prog, rep, ND + "mse", ["mean", "covariance"], rule="NODECISION")
     rep.require_count("FORMULA", 3)
